@@ -160,8 +160,11 @@ Section Spec.
         match pk_imports pk with
         | None => None
         | Some im =>
+            (* a bare target that names a builtin: PACKAGE_RESOLVE returns the URL "node:<name>" and
+               RESOLVE_ESM_MATCH's fileURLToPath throws (Node 20: ERR_INVALID_URL_SCHEME): require fails,
+               it is neither a resolution nor a rejection by the map (import resolves it, see import_resolve) *)
             Some (RESOLVE_ESM_MATCH scope (node_imports_resolve x im conds)
-                    (fun s => if builtin s then NBuiltin s else cjs_package conds s scope))
+                    (fun s => if builtin s then NNotFound else cjs_package conds s scope))
         end
     end.
 
